@@ -136,9 +136,8 @@ func attemptAll(s *Sess, g *Gen, rows []LockRow, source string, fullSnap bool) b
 		if op == nil {
 			continue
 		}
-		if row.Kind == "RegisterType" {
-			g.late-- // the key is consumed only when the registration succeeds
-		}
+		// (the key of a rejected registration is not offered again: the next successful registration is of a
+		// different type and must not inherit anything from the rejected one)
 		fr := &FaultRow{Name: "locked." + row.Name, Atomic: true}
 		if !fullSnap {
 			fr.Atomic = false
@@ -180,6 +179,9 @@ func succeedAll(s *Sess, g *Gen, rows []LockRow) bool {
 		}
 		s.Do(op)
 		if s.Failed() {
+			return false
+		}
+		if row.Kind == "RegisterType" && !checkRegistry(s, "after registering a type on the unlocked world") {
 			return false
 		}
 		s.Cov.N["unlocked_ok:"+row.Name]++
@@ -293,6 +295,11 @@ func caseC09(c *Ctx) {
 	p := DefaultProfile()
 	p.Steps = 40 + c.R.Intn(50)
 	p.Late = lateKeys(c.R, 40)
+	for i := range p.Late {
+		if i%2 == 0 {
+			p.Late[i] = "X" + p.Late[i][1:] // relation types and plain types alternate
+		}
+	}
 	p.W["CacheRegister"] = 5
 	p.W["RegisterType"] = 0
 	p.Zero("Reset")
